@@ -135,7 +135,9 @@ for _p, _txt in (('C01', 'every returned block checked against mapping registry,
     add(_p, level='exploration',
         rule='seeded allocate/free/deallocate/realloc histories on 13 policy configurations (aligned/unaligned map, 5 geometries, poison on/off, 3 mutex types) + all sequences of length 6 on nearly-full tiny slabs: ' + _txt,
         jobs=[job('slab', 'c01_slab.cpp', args=['--arg', 'prop=' + _p], shards={'quick': 12, 'thorough': 16}, hang_is_violation=True),
-              job('slab_track_regions', 'c01_slab.cpp', defines=['-DFRG_SLAB_TRACK_REGIONS'], args=['--arg', 'prop=' + _p], tiers=('thorough',), shards={'thorough': 16}, hang_is_violation=True)],
+              job('slab_track_regions', 'c01_slab.cpp', defines=['-DFRG_SLAB_TRACK_REGIONS'], args=['--arg', 'prop=' + _p], tiers=('thorough',), shards={'thorough': 16}, hang_is_violation=True)]
+             # C03 across threads: the controlled-scheduler driver of C05 with a poisoning policy whose callbacks are scheduling points
+             + ([job('slab_sched_poison', 'c05_slab_sched.cpp', args=['--arg', 'prop=C03'], shards={'quick': 5, 'thorough': 8})] if _p == 'C03' else []),
         min_evaluations={'quick': 10000, 'thorough': 100000},
         min_counters={'allocations': 100000, 'frees': 50000, 'reallocs_moved': 1000, 'reallocs_in_place': 1000, 'large_allocations': 1000, 'policy_unmap_calls': 1000, 'exhaustive_histories': 5000},
         assumptions=SLAB_ASSUME)
@@ -211,7 +213,7 @@ add('C10',
 # ---------------------------------------------------------------------------------------------- C05
 add('C05',
     level='exploration',
-    rule='slab_pool shared by threads: E3 bounded-preemption DFS over 7 scenarios (two workers find a class empty at once, free into the slab another worker allocates from, slab becoming full/partial, large+small, moving realloc, three workers) and PCT/random schedules of random scripts with switches at every pool mutex operation, hook point and policy callback; E2 2-8 free-running threads with cross-thread frees under ThreadSanitizer for three mutex types + offline overlap check of the recorded history',
+    rule='slab_pool shared by threads: E3 bounded-preemption DFS over 13 scenarios (4 of them with a poisoning policy whose callbacks are scheduling points; two workers find a class empty at once, free into the slab another worker allocates from, slab becoming full/partial, large+small, moving realloc, three workers) and PCT/random schedules of random scripts with switches at every pool mutex operation, hook point and policy callback; E2 2-8 free-running threads with cross-thread frees under ThreadSanitizer for three mutex types + offline overlap check of the recorded history',
     jobs=[job('slab_sched', 'c05_slab_sched.cpp', shards={'quick': 8, 'thorough': 16}),
           job('slab_tsan', 'c05_tsan.cpp', flavour='tsan', shards={'quick': 4, 'thorough': 8})],
     min_evaluations={'quick': 5000, 'thorough': 100000},
